@@ -280,6 +280,31 @@ func init() {
 					c.Fail("C14e/AppendEntry/takes-over-pending-delete", c.P.InstrPos(reset), "the pending delete is taken over only under an additional condition: otherwise the superseded version keeps its delete timer after giving up its 'latest' reference, and the timer's putEntry hits refcount 0 (panic in BeginBlock)")
 				}
 			}
+			if reset != nil {
+				// the version that gave up its DeleteAt is written back on every path (current-block
+				// appends store it again through putEntry, future appends have nothing else that would)
+				var holder *ssa.Alloc
+				if fa, ok := reset.Addr.(*ssa.FieldAddr); ok {
+					holder = allocOf(fa.X)
+				}
+				stores := func(in ssa.Instruction) bool {
+					call := ir.CallOf(in)
+					if call == nil || holder == nil {
+						return false
+					}
+					n := ir.CalleeName(call)
+					if n != fsK+"setEntry" && n != fsK+"putEntry" {
+						return false
+					}
+					return len(call.Args) >= 3 && allocOf(call.Args[2]) == holder
+				}
+				r := c.MustPass(ap, reset, stores, func(ret *ssa.Return) bool { return !IsFailureReturn(ret) })
+				if holder != nil && r.OK {
+					c.OK("C14e/AppendEntry/cleared-holder-is-stored", c.P.InstrPos(reset), "setEntry/putEntry of the previous holder on every successful path after DeleteAt was cleared")
+				} else {
+					c.Fail("C14e/AppendEntry/cleared-holder-is-stored", c.P.InstrPos(reset), "after the previous version's DeleteAt is cleared in memory a successful return is reachable without writing that version back ("+r.Witness+"): the store keeps two versions carrying DeleteAt while only the newer owns the delete timer, and the next take-over panics on the missing timer")
+				}
+			}
 			okTransfer := false
 			for _, s := range c.CallsByName(ap, false, fsK+"transferTimer") {
 				call := ir.CallOf(s.Instr)
